@@ -355,7 +355,7 @@ func FormatEmail(s string) Tri {
 	return Unknown
 }
 
-var reURIYes = regexp.MustCompile(`^[a-z][a-z0-9]*://(([A-Za-z0-9._~-]|%[0-9A-Fa-f]{2})+(:([A-Za-z0-9._~-]|%[0-9A-Fa-f]{2})*)?@)?[A-Za-z0-9]+([.-][A-Za-z0-9]+)*(:\d{1,4})?(/[A-Za-z0-9._~-]*)*(\?[A-Za-z0-9=&._~-]*)?(#[A-Za-z0-9._~-]*)?$`)
+var reURIYes = regexp.MustCompile(`^[a-z][a-z0-9]*://(([A-Za-z0-9._~-]|%[0-9A-Fa-f]{2})+(:([A-Za-z0-9._~-]|%[0-9A-Fa-f]{2})*)?@)?([A-Za-z0-9]|%[0-9A-Fa-f]{2})+([.-]([A-Za-z0-9]|%[0-9A-Fa-f]{2})+)*(:\d{1,4})?(/[A-Za-z0-9._~-]*)*(\?[A-Za-z0-9=&._~-]*)?(#[A-Za-z0-9._~-]*)?$`)
 
 var reURIAuthority = regexp.MustCompile(`^[a-z][a-z0-9]*://([^/?#]*)`)
 var reURIPortOnly = regexp.MustCompile(`^(:[0-9]*)?$`)
@@ -370,9 +370,23 @@ func FormatURI(s string) Tri {
 	if strings.ContainsAny(s, " \"<>\\^`{|}") || strings.Count(s, "#") > 1 {
 		return No // characters RFC 3986 allows nowhere in a URI; '#' only starts the fragment
 	}
+	for i := 0; i < len(s); i++ {
+		if s[i] < 0x20 || s[i] == 0x7f {
+			return No // control characters stand nowhere in a URI, the fragment included
+		}
+		if s[i] == '%' && !(i+2 <= len(s)-1 && isHex(s[i+1]) && isHex(s[i+2])) {
+			return No // a percent sign is always followed by two hex digits, in the query as anywhere else
+		}
+	}
 	if m := reURIAuthority.FindStringSubmatch(s); m != nil {
 		// scheme://authority...: an authority that is only user info and/or a port names no host
 		auth := m[1]
+		if strings.ContainsAny(s[len(m[0]):], "[]") {
+			return No // square brackets only enclose an IP literal in the host
+		}
+		if h := auth[strings.LastIndexByte(auth, '@')+1:]; !strings.HasPrefix(h, "[") && strings.Count(h, ":") > 1 {
+			return No // a registered name holds no colon: one colon at most, in front of the port
+		}
 		if strings.Count(auth, "@") > 1 {
 			return No // '@' ends the user info, inside it has to be percent-encoded
 		}
